@@ -61,6 +61,18 @@ func replayPrune(c *core.Ctx, lfsBin string, b *behaviour, idx int) (*core.Viola
 	}
 	defer w.Close()
 	fields := map[string]string{"attr": pruneAttrs[ai], "ambient": strings.Join(pruneAmbient[mi], ",")}
+	// where the committer's clock and the clock of the machine running prune stand is a
+	// concretisation-only dimension: every other behaviour has its commits made at UTC+14 and prune
+	// run at UTC-12 (dates are instants; no zone is an argument of the retention rules)
+	nearEdge := false
+	if len(b.steps) > 0 {
+		nearEdge, _ = b.steps[len(b.steps)-1]["nearEdge"].(bool)
+	}
+	if (b.hash/7)%2 == 1 || nearEdge {
+		w.Env.CommitTZ = "+1400"
+		w.Env.Extra = append(w.Env.Extra, "TZ=Etc/GMT+12")
+		fields["zones"] = "commits+14/prune-12"
+	}
 	for i, s := range b.steps {
 		handled, err := applyRepoStep(w, s)
 		if err != nil {
@@ -130,6 +142,13 @@ func replayPrune(c *core.Ctx, lfsBin string, b *behaviour, idx int) (*core.Viola
 				args = append(args, "--force")
 			case "verify-remote":
 				args = append(args, "--verify-remote")
+			}
+			if win := s.num("window"); win > 0 {
+				// the window is fetchrecentcommitsdays + pruneoffsetdays (3, the default)
+				w.logf("git config lfs.fetchrecentcommitsdays %d", win-3)
+				if r := w.Env.Git(w.Clone, "config", "lfs.fetchrecentcommitsdays", fmt.Sprint(win-3)); !r.OK() {
+					return nil, fmt.Errorf("config: %s", r.All())
+				}
 			}
 			dir := w.Clone
 			if s.str("from") == "linked" {
@@ -202,7 +221,11 @@ func init() {
 		c.Set("states", r.Distinct)
 		c.Set("transitions", r.Generated)
 		samplePriority = func(class string) bool { return strings.Contains(class, "sole:") }
+		sampleFirst = func(class string) bool {
+			return strings.Contains(class, "near-edge") && strings.Contains(class, "sole:recent-commits")
+		}
 		bs, total, nclasses := sampleBehaviours(c, r.OutFile, "flags", budget)
+		sampleFirst = nil
 		// the merge family: longer histories with merges and deletion of the merged branch (spec PSpecM)
 		mcfg, mbudget := "Prune_merge_q.cfg", 160
 		if !c.Quick() {
@@ -243,6 +266,6 @@ func init() {
 		for i := 0; i < len(bs); i += len(bs)/4 + 1 {
 			c.Sample(json.RawMessage(bs[i].raw))
 		}
-		c.Assume("commit dates are 0 or 20 days before now, far from the 10-day retention boundary; fetchrecentcommitsdays stays at its default 0; at most one linked worktree (prune run from either side); at most one remote-tracking ref of a second remote; branch deletion only in the merge family (one path, dates all recent, prune from the main worktree); detached HEAD is not yet in the model")
+		c.Assume("commit dates are 0 or 20 days before now, far from the 10-day retention boundary; fetchrecentcommitsdays is 0 (default) or 18 (a 21-day window with the default offset: a 20-day-old commit under a fresh ref lies one day inside it); commits carry UTC+14 and prune runs at UTC-12 in every other behaviour (needs the system tzdata); at most one linked worktree (prune run from either side); at most one remote-tracking ref of a second remote; branch deletion only in the merge family (one path, dates all recent, prune from the main worktree); detached HEAD is not yet in the model")
 	}
 }
